@@ -4,6 +4,7 @@ import (
 	"fmt"
 	"go/token"
 	"go/types"
+	"reflect"
 	"sort"
 	"strings"
 
@@ -313,6 +314,9 @@ func runC20(c *Ctx, w *World, r *Report) {
 					if !ok || !call.Common().IsInvoke() || call.Common().Method.Name() != "Size" || !strings.HasSuffix(types.TypeString(call.Common().Value.Type(), nil), "reflect.Type") {
 						continue
 					}
+					if typeSizeGuardedScalar(w.FA(sizeof), call) {
+						continue // the size of a *part's* type, taken only when that type's own kind is a scalar (element fast path)
+					}
 					if flowsTo(call, isReturnSink) {
 						miss = append(miss, fmt.Sprintf("a plain sum of parts: reflect.Type.Size() (which includes alignment padding and ignores indirect parts) feeds the result for this composite kind at %s", w.InstrPos(ins)))
 					}
@@ -514,6 +518,45 @@ func sprintfArgs(call *ssa.Call) []ssa.Value {
 		}
 	}
 	return out
+}
+
+// scalarKinds: the kinds whose values refer to no other memory and whose reflect.Type.Size() is their structural size.
+var scalarKinds = map[int64]bool{
+	int64(reflect.Bool): true, int64(reflect.Int): true, int64(reflect.Int8): true, int64(reflect.Int16): true, int64(reflect.Int32): true, int64(reflect.Int64): true,
+	int64(reflect.Uint): true, int64(reflect.Uint8): true, int64(reflect.Uint16): true, int64(reflect.Uint32): true, int64(reflect.Uint64): true, int64(reflect.Uintptr): true,
+	int64(reflect.Float32): true, int64(reflect.Float64): true, int64(reflect.Complex64): true, int64(reflect.Complex128): true,
+}
+
+// typeSizeGuardedScalar: call is T.Size() on a reflect.Type value T and every path to it passes a test
+// T.Kind() == K with K a scalar kind (the same value T).
+func typeSizeGuardedScalar(fa *FA, call *ssa.Call) bool {
+	tv := call.Common().Value
+	isKindOfT := func(v ssa.Value) bool {
+		c, ok := v.(*ssa.Call)
+		return ok && c.Common().IsInvoke() && c.Common().Method.Name() == "Kind" && c.Common().Value == tv
+	}
+	dnf := fa.CondsDNF(call.Block(), 0)
+	if len(dnf) == 0 {
+		return false
+	}
+	for _, cs := range dnf {
+		ok := false
+		for _, cd := range cs {
+			bo, isB := cd.V.(*ssa.BinOp)
+			if !isB || bo.Op != token.EQL || !cd.Pol {
+				continue
+			}
+			for _, side := range [2][2]ssa.Value{{bo.X, bo.Y}, {bo.Y, bo.X}} {
+				if k, isK := constInt64(side[1]); isK && isKindOfT(side[0]) && scalarKinds[k] {
+					ok = true
+				}
+			}
+		}
+		if !ok {
+			return false
+		}
+	}
+	return true
 }
 
 func init() {
